@@ -440,24 +440,36 @@ def check_e2e(ctx, problem, cfg, prop='C01', label='random'):
         return False
     fails = U.c01_predicate(tree, cfg, problem['cell_ids'], r['results'],
                             r['out_tree'])
-    # the chunks the workers really saw: rows r0:r1 paired with names r0:r1
+    # the chunks the workers really saw: they must tile the rows, and rows
+    # r0:r1 must travel with the names obs[r0:r1]
+    chunk_diff = None
     if r['chunks'] is not None and not fails:
         n = len(problem['cell_ids'])
-        cs, want = U.indep_chunks(n, cfg['n_processors'], cfg['chunk_size'])
         got = [(a, b) for a, b, _ in r['chunks']]
-        if got != want:
-            fails.append(('chunks', 'workers saw chunks %r, expected %r'
-                          % (got, want)))
+        pos = 0
+        for a, b in got:
+            if a != pos or b <= a:
+                pos = -1
+                break
+            pos = b
+        if pos != n:
+            fails.append(('chunk-cover', 'the chunks %r handed to the workers '
+                          'do not tile rows 0..%d' % (got, n)))
         elif any(ids != problem['cell_ids'][a:b]
                  for a, b, ids in r['chunks']):
             fails.append(('name-chunk', 'rows r0:r1 were paired with other '
                           'names than obs[r0:r1]'))
+        else:
+            cs, want = U.indep_chunks(n, cfg['n_processors'],
+                                      cfg['chunk_size'])
+            if got != want:
+                chunk_diff = {'field': 'chunks', 'impl': got, 'model': want}
     if fails:
         ctx.violation('%s/map/%s' % (prop, fails[0][0]),
                       'run_mapping output breaks C01: ' + fails[0][1],
                       dict(detail, fails=fails[:3]))
     if ctx.driver_ok:
-        diff = U.model_pipeline(ctx, problem, cfg, r['results'])
+        diff = chunk_diff or U.model_pipeline(ctx, problem, cfg, r['results'])
         ctx.traces += 1
         if diff is not None:
             ctx.disagreements_checked += 1
